@@ -95,6 +95,19 @@ def post_output_geobox(args, kw, res, exc, snap):
     A = out.affine
     if not (A.b == 0 and A.d == 0):
         return _mon.fail("compute_output_geobox", wit({"why": "not axis aligned"}), key="output-not-axis-aligned")
+    if tight and not same_crs and not (isinstance(anchor, str) and anchor == "default"):  # (own CRS: the request without an anchor is the documented "return the source itself" case, not comparable)
+        # "anchor: ... ignored when tight=True": however the anchor is spelled (string, number, AnchorEnum member, XY fractions), the tight grid is the one computed without it
+        from odc.geo import overlap as O_
+
+        kw_ref = {k: v for k, v in p.items() if k in ("resolution", "shape", "tol") and (k in kw or k == "resolution" and len(args) > 2)}
+        if len(args) > 2:
+            kw_ref["resolution"] = args[2]
+        ref, e_ref = call(O_.compute_output_geobox, src, crs, tight=True, **kw_ref)
+        if e_ref is None:
+            same_grid = tuple(ref.shape) == tuple(out.shape) and ref.crs == out.crs and all(abs(u - v) <= 1e-12 * max(1.0, abs(v)) for u, v in zip(gen.aff6(out.affine), gen.aff6(ref.affine)))
+            if not _mon.check(same_grid, "compute_output_geobox.tight-ignores-anchor", lambda: wit({"why": "tight=True result depends on the anchor", "without_anchor": gen.gbox_desc(ref)}), key="output-tight-anchor",
+                              cls=type(anchor).__name__):
+                return
     X, Y = gen.transformer(src_wkt, target.proj.to_wkt()).transform(wx.ravel(), wy.ravel())
     X, Y = np.asarray(X), np.asarray(Y)
     if not (np.isfinite(X).all() and np.isfinite(Y).all()):
@@ -210,12 +223,16 @@ def one(mon: Monitor, rng: random.Random) -> None:
     mode = rng.choice(["auto", "auto", "fit", "same", "res", "shape", "shapeint"])
     kw = {"tol": rng.choice([0.01, 0.05])}
     if rng.random() < 0.6:
-        kw["anchor"] = rng.choice(["default", "center", "edge", 0.25, "floating", "xy"])
+        kw["anchor"] = rng.choice(["default", "center", "edge", 0.25, "floating", "xy", "enum"])
         if kw["anchor"] == "xy":
             from odc.geo import xy_
 
             kw["anchor"] = xy_(rng.choice([0.25, 0, 0.1]), rng.choice([0.75, 0.5, 0.6]))
-    if rng.random() < 0.2:
+        elif kw["anchor"] == "enum":
+            from odc.geo.types import AnchorEnum
+
+            kw["anchor"] = rng.choice([AnchorEnum.EDGE, AnchorEnum.CENTER, AnchorEnum.FLOATING])
+    if rng.random() < 0.25:
         kw["tight"] = True
     if rng.random() < 0.15:
         kw = {}
@@ -303,7 +320,7 @@ def run(mon: Monitor, tier: str, seed: int, shard: int, nshards: int) -> None:
                 mon.obs["rotated_pole_probes"] += 1
         for pt, n in [("compute_output_geobox", 350), ("compute_output_geobox|auto|north-up|cross", 20), ("compute_output_geobox|fit|north-up|cross", 10), ("compute_output_geobox|same|north-up|cross", 10),
                       ("compute_output_geobox|explicit|north-up|cross", 10), ("compute_output_geobox|auto|rotated|cross", 8), ("compute_output_geobox|auto|north-up|utm", 5),
-                      ("compute_output_geobox|shape|north-up|cross", 2), ("compute_output_geobox|shape|north-up|cross|int", 2), ("compute_output_geobox|identity", 10), ("compute_output_geobox|shape+resolution|north-up|cross", 2)]:
+                      ("compute_output_geobox|shape|north-up|cross", 2), ("compute_output_geobox|shape|north-up|cross|int", 2), ("compute_output_geobox|identity", 10), ("compute_output_geobox|shape+resolution|north-up|cross", 2), ("compute_output_geobox.tight-ignores-anchor", 12)]:
             mon.floor(pt, n)
     finally:
         detach_all()
